@@ -377,6 +377,23 @@ def doc_examples():
 # --------------------------------------------------------------------------
 # C07
 
+def form_fuzz(ctx, cases, name, n=None):
+    """Syntactic-form variants (lib/formfuzz.py) of generated programs: parsed by the real
+    parser, executed in the specification on that tree, compared with the real run."""
+    import formfuzz
+    import render as R
+    n = n or (300 if ctx.quick else 3000)
+    vs = formfuzz.variants(cases, ctx.seed, per_case=1, max_cases=n)
+    scripts = []
+    for label, body in vs:
+        try:
+            text, _, _ = R.render(body, None)
+        except Exception:
+            continue
+        scripts.append(("%s:%s" % (name, label), text))
+    return corpus_validate(ctx, scripts, name + "forms")
+
+
 def order_family(ctx, name):
     """The evaluation-order / exactly-once programs of MC_C01 (every sub-expression of every
     construct wrapped in a tracing call), replayed."""
@@ -392,7 +409,8 @@ def c07(ctx):
                 % ("" if ctx.quick else ", depth 3 sampled"))
     out = ctx.run_model("MC_C07", "C07Params" if ctx.quick else "C07ParamsThorough",
                         invariants=["EscapeWellFormed"], workers=16)
-    ctx.replay(out, "c07", seeds=(None,) if ctx.quick else (None, ctx.seed))
+    cases_, _ = ctx.replay(out, "c07", seeds=(None,) if ctx.quick else (None, ctx.seed))
+    form_fuzz(ctx, cases_, "c07")
     order_family(ctx, "c07")
     scripts = [s for s in repo_test_scripts()
                if re.search(r"\b(break|continue|return|while|for|if)\b", s[1])]
@@ -425,7 +443,8 @@ def c11(ctx):
                 % (ml, mc))
     out = ctx.run_model("MC_C11", "C11Params", invariants=["C11Laws"], props=FRAME_PROPS,
                         constants={"MaxLen": "= %d" % ml, "MaxChars": "= %d" % mc}, workers=16)
-    ctx.replay(out, "c11", seeds=(None,) if ctx.quick else (None, ctx.seed))
+    cases_, _ = ctx.replay(out, "c11", seeds=(None,) if ctx.quick else (None, ctx.seed))
+    form_fuzz(ctx, cases_, "c11")
     scripts = [s for s in repo_test_scripts() if "index" in s[0] or "range" in s[0] or "concat" in s[0]]
     corpus_validate(ctx, scripts, "c11tests")
 
@@ -438,7 +457,8 @@ def c12(ctx):
                 "forms; non-trivial = every case; distinct = distinct parameter tuples" % hl)
     out = ctx.run_model("MC_C12", "C12Params", invariants=["C12Laws"], props=FRAME_PROPS,
                         constants={"HistLen": "= %d" % hl})
-    ctx.replay(out, "c12", seeds=(None,) if ctx.quick else (None, ctx.seed))
+    cases_, _ = ctx.replay(out, "c12", seeds=(None,) if ctx.quick else (None, ctx.seed))
+    form_fuzz(ctx, cases_, "c12")
     order_family(ctx, "c12")
     scripts = [s for s in repo_test_scripts() if "object" in s[0] or "prop" in s[0]]
     corpus_validate(ctx, scripts, "c12tests")
@@ -455,7 +475,8 @@ def c10(ctx):
     out = ctx.run_model("MC_C10", "C10Params", invariants=["C10Laws"], props=FRAME_PROPS + ["CompareFrame"])
     ctx.notes.append("ASSUME EqReflexive, EqSymmetric, EqTransitive (all triples of the data pool), EqCopies, "
                      "EqErrNamesTypes, EqAtomKinds, EqFuncsError, NeIsNegation, RefLaws checked by TLC at start-up")
-    ctx.replay(out, "c10", seeds=(None,) if ctx.quick else (None, ctx.seed, ctx.seed + 1))
+    cases_, _ = ctx.replay(out, "c10", seeds=(None,) if ctx.quick else (None, ctx.seed, ctx.seed + 1))
+    form_fuzz(ctx, cases_, "c10")
     scripts = [s for s in repo_test_scripts() if "equality" in s[0]]
     corpus_validate(ctx, scripts, "c10tests")
 
@@ -469,7 +490,8 @@ def c05(ctx):
                 "every history; distinct = distinct parameter tuples" % hl)
     out = ctx.run_model("MC_C05", "C05Params", props=FRAME_PROPS + ["BuildFresh", "IdentityIsCell"],
                         constants={"HistLen": "= %d" % hl}, max_steps=6000)
-    ctx.replay(out, "c05", seeds=(None,) if ctx.quick else (None, ctx.seed))
+    cases_, _ = ctx.replay(out, "c05", seeds=(None,) if ctx.quick else (None, ctx.seed))
+    form_fuzz(ctx, cases_, "c05")
     scripts = [s for s in repo_test_scripts() if "ref" in s[0] or "mutation" in s[0] or "concatenation" in s[0]]
     corpus_validate(ctx, scripts, "c05tests")
 
@@ -527,7 +549,7 @@ def c04_random_seqs(seed, n):
     """Seeded well-formed token sequences of length 5..9 for MC_C04 (family `random`)."""
     import random
     rnd = random.Random(seed)
-    simple = ["D", "A", "R", "Dy", "Ry", "C", "C1", "S", "Q", "D", "R", "Q", "A"]
+    simple = ["D", "A", "R", "Dy", "Ry", "C", "C1", "S", "Q", "D", "R", "Q", "A", "Dx", "Fr", "G", "Cg"]
     openers = ["{", "I{", "F{", "L{", "W{"]
 
     def gen(budget, depth):
@@ -583,7 +605,8 @@ def c20(ctx):
                 "parameter tuples" % sl)
     out = ctx.run_model("MC_C20", "C20Params", invariants=["C20Laws"], props=FRAME_PROPS + ["ShadowFrame"],
                         constants={"SeqLen": "= %d" % sl}, workers=16)
-    ctx.replay(out, "c20", seeds=(None,) if ctx.quick else (None, ctx.seed))
+    cases_, _ = ctx.replay(out, "c20", seeds=(None,) if ctx.quick else (None, ctx.seed))
+    form_fuzz(ctx, cases_, "c20")
     scripts = [s for s in repo_test_scripts() if "scope" in s[0] or "variables" in s[0] or "runtime_errors" in s[0]]
     corpus_validate(ctx, scripts, "c20tests")
 
@@ -599,7 +622,9 @@ def c13(ctx):
                 "non-trivial = every case; distinct = distinct parameter tuples" % (mp, ms, mp))
     out = ctx.run_model("MC_C13", "C13Params", invariants=["C13Laws"], props=FRAME_PROPS + ["BuildFresh"],
                         constants={"MaxPat": "= %d" % mp, "MaxSrc": "= %d" % ms}, workers=16)
-    ctx.replay(out, "c13", seeds=(None,) if ctx.quick else (None, ctx.seed))
+    cases_, _ = ctx.replay(out, "c13", seeds=(None,) if ctx.quick else (None, ctx.seed))
+    form_fuzz(ctx, cases_, "c13")
+    order_family(ctx, "c13")
     scripts = [s for s in repo_test_scripts()
                if "destruct" in s[0] or "spread" in s[0] or "collect" in s[0] or "params" in s[0]]
     corpus_validate(ctx, scripts, "c13tests")
@@ -615,7 +640,8 @@ def c14(ctx):
                 "independent rule ExpectedTag must agree with the machine; non-trivial = every case")
     out = ctx.run_model("MC_C14", "C14Params", invariants=["C14Laws"],
                         props=FRAME_PROPS + ["BuildFresh", "FreshPerEntry"])
-    ctx.replay(out, "c14", seeds=(None, ctx.seed) if ctx.quick else (None, ctx.seed, ctx.seed + 1, ctx.seed + 2))
+    cases_, _ = ctx.replay(out, "c14", seeds=(None, ctx.seed) if ctx.quick else (None, ctx.seed, ctx.seed + 1, ctx.seed + 2))
+    form_fuzz(ctx, cases_, "c14", n=600 if ctx.quick else 6000)
     order_family(ctx, "c14")
     scripts = [s for s in repo_test_scripts() if "this" in s[0] or "function" in s[0] or "args" in s[0]]
     corpus_validate(ctx, scripts, "c14tests")
@@ -650,7 +676,8 @@ def c01(ctx):
     out = ctx.run_model("MC_C01", "C01ParamsQuick" if ctx.quick else "C01ParamsThorough",
                         invariants=["EscapeWellFormed"],
                         props=FRAME_PROPS + ["BuildFresh", "FreshPerEntry", "ShadowFrame"], max_steps=4000)
-    ctx.replay(out, "c01", seeds=(None, ctx.seed) if ctx.quick else (None, ctx.seed, ctx.seed + 1))
+    cases_, _ = ctx.replay(out, "c01", seeds=(None, ctx.seed) if ctx.quick else (None, ctx.seed, ctx.seed + 1))
+    form_fuzz(ctx, cases_, "c01", n=500 if ctx.quick else 5000)
     corpus_validate(ctx, repo_test_scripts(), "c01tests")
     corpus_validate(ctx, doc_examples(), "c01docs")
     corpus_validate(ctx, random_scripts(ctx.seed, 300 if ctx.quick else 3000,
@@ -828,7 +855,10 @@ def c03(ctx):
                 "plus every truncation of the repository's test scripts, seeded byte- and token-level mutants and "
                 "non-UTF-8 inputs; non-trivial = strings with at least one token or error; distinct = distinct texts"
                 % ml)
-    specs = run_mc_lex(ctx, ml, "FullAlphabet", "MC_Lex_full%d" % ml)
+    specs = run_mc_lex(ctx, ml, "BaseAlphabet", "MC_Lex_base%d" % ml)
+    # characters that are none of the lexer's classes but close to one (NUL, VT, DEL, NBSP, non-ASCII
+    # digits and letters, a line separator), among one character of every class
+    specs += run_mc_lex(ctx, ml, "EdgeAlphabet", "MC_Lex_edge%d" % ml)
     texts = [lx.text_of(o["src"]) for o in specs]
     lx.check_texts(ctx, texts, specs, "c03", "C03")
     for o in specs:
@@ -955,8 +985,10 @@ def c15(ctx):
                     "error": o["err"]})
     out = ctx.run_model("MC_C15", "C15Params", invariants=["C15Laws"], props=["HeapFrame", "OutputMonotone"],
                         constants={"MaxSlots": "= %d" % ms}, workers=16)
-    ctx.replay(out, "c15", seeds=(None, ctx.seed) if ctx.quick else (None, ctx.seed, ctx.seed + 1),
-               render_opts={"hex_prob": 0.3})
+    cases_, _ = ctx.replay(out, "c15", seeds=(None, ctx.seed) if ctx.quick else (None, ctx.seed, ctx.seed + 1),
+                           render_opts={"hex_prob": 0.3})
+    form_fuzz(ctx, cases_, "c15")
+    order_family(ctx, "c15")
     scripts = [s for s in repo_test_scripts() if "string" in s[0] or "interp" in s[0] or "escape" in s[0]]
     corpus_validate(ctx, scripts, "c15tests")
 
@@ -1195,6 +1227,9 @@ def c08(ctx):
                               detail={"expected_columns": want_ops, "got": sorted(got_ops)}, prop="C18")
     for cse in cases[:: max(1, len(cases) // 3)][:3]:
         ctx.sample({"text": c08_text(cse["toks"])[0], "tree": strip_par(cse["tree"])})
+    # evaluated: the grouping the parser produced is the grouping that is evaluated
+    oute = ctx.run_model("MC_C08E", "C08EParams", progof="C08EProgOf")
+    ctx.replay(oute, "c08e", seeds=(None, ctx.seed), render_opts={"extra_parens": 0.3})
     scripts = [s for s in repo_test_scripts() if "precedence" in s[0] or "operations" in s[0]]
     corpus_validate(ctx, scripts, "c08tests")
 
